@@ -161,6 +161,19 @@ Definition master (c : cfg) (s : st) : st :=
   end.
 
 (* ---- the SIGCHLD handler ------------------------------------------------------------------------------ *)
+(* self._stopping (the repaired tree): set by the first statement of stop(), never cleared; stop() is entered only through
+   [enter_stop], which ends at kill_workers' snapshot, and its pcs are left only for another stop() or for the exit: at every
+   point where the handler can run the flag is true exactly at these pcs (same reading as Model/Arbiter.v) *)
+Definition in_stop (p : pc) : bool :=
+  match p with
+  | PSnap _ _ | PKill _ _ _ | PWait _ _ | PNap _ _ => true
+  | _ => false
+  end.
+Definition stopping (s : st) : bool := in_stop (cur s).
+(* `if exitcode == self.WORKER_BOOT_ERROR [and not self._stopping]: raise HaltServer(...)` - the form is read from the tree *)
+Definition raises (s : st) : bool := negb (reap_guards_halting && stopping s).
+Arguments raises : simpl never.
+
 Fixpoint reap (fuel : nat) (s : st) : st * option Z :=
   match fuel with
   | O => (s, None)
@@ -172,8 +185,8 @@ Fixpoint reap (fuel : nat) (s : st) : st * option Z :=
           if reexec s1 =? k_pid z then reap f (set_reexec s1 0)
           else
             let code := Z.shiftr (k_status z) 8 in
-            if code =? worker_boot_error then (s1, Some worker_boot_error)
-            else if code =? app_load_error then (s1, Some app_load_error)
+            if (code =? worker_boot_error) && raises s1 then (s1, Some worker_boot_error)
+            else if (code =? app_load_error) && raises s1 then (s1, Some app_load_error)
             else reap f (set_ws s1 (remove_z (k_pid z) (ws s1)))
       end
   end.
@@ -195,7 +208,7 @@ Definition chld (c : cfg) (s : st) : st :=
   match reap (S (length (kids s))) s with
   | (s1, None) => s1
   | (s1, Some code) =>
-      if in_final_stop (cur s1) then set_pc s1 PCrashed           (* HaltServer escapes from halt() *)
+      if in_final_stop (cur s1) then set_pc s1 PCrashed           (* HaltServer escapes from halt(): only without the guard *)
       else enter_stop c s1 true (AExit code)                       (* except HaltServer: halt(reason, status) *)
   end.
 
@@ -262,6 +275,17 @@ Definition no_boot_failure (s : st) (ls : list label) : Prop :=
   (forall p status, In (Exit p status) ls -> boot_code status = false).
 
 Definition is_master (l : label) : bool := match l with Master => true | _ => false end.
+(* what happens before the master dispatches the signal: the schedule up to its first Master label *)
+Fixpoint pre_dispatch (ls : list label) : list label :=
+  match ls with
+  | [] => []
+  | Master :: _ => []
+  | l :: t => l :: pre_dispatch t
+  end.
+(* where a boot failure changes the outcome of a shutdown: on a tree whose reap_workers tests `not self._stopping` only
+   before the signal is dispatched (then the boot failure came first and decides the status: C03); on a tree without the
+   test, anywhere *)
+Definition boot_scope (ls : list label) : list label := if reap_guards_halting then pre_dispatch ls else ls.
 Definition count_master (ls : list label) : nat := length (filter is_master ls).
 
 (* ---- the canonical fair environment: told workers exit during the naps, SIGCHLD is delivered -------------- *)
